@@ -12,6 +12,11 @@
 //!        chunks and `!<code>` (one failing call; !8 = Interrupted).  <class> = valid: the scripts
 //!        carry exactly the reference encoding of <data> under <decisions> (re-checked) and the oracle
 //!        demands the data; malformed: the oracle demands no panic (the watchdog: no hang).
+//!   bcj2_dec_old ...   the same run; the name tells the model driver to use the reader as it was before
+//!        repo-patches/16 (errors of an inner reader).  The generator probes the crate once (a one-byte
+//!        stream whose MAIN reader fails transiently after the byte) and uses this name for the cases
+//!        with failing inner calls when the crate under test does not have the repair; their oracle
+//!        failures are the known finding bcj2-reader-inner-error.  Fault-free cases never use it.
 //! decisions: a string of 0/1, one per candidate in stream order (missing = 0), "." = none.
 use crate::areas::a_bcj::{drive, fmt_dec, parse_script, Ev, ScriptReader};
 use crate::util::*;
@@ -208,6 +213,13 @@ fn impl_decode(size: u64, scripts: &[Vec<Ev>; 4], sizes: &[usize]) -> Outcome<(V
         let mut r = BCJ2Reader::new(inputs, size);
         Ok(drive(&mut r, sizes, 1 << 26))
     })
+}
+
+/// Does the crate under test have repo-patches/16 (bytes decoded before a transient failure of an
+/// inner reader are kept)?
+fn impl_keeps_bytes_on_inner_error() -> bool {
+    let scripts = [vec![Ev::Data(vec![0x5A]), Ev::Fail(8)], vec![], vec![], vec![Ev::Data(vec![0, 0, 0, 0, 0])]];
+    matches!(impl_decode(1, &scripts, &[16]), Outcome::Ok((d, None)) if d == [0x5A])
 }
 
 fn one_chunk(streams: &[Vec<u8>; 4]) -> [Vec<Ev>; 4] {
@@ -459,6 +471,18 @@ pub fn gen(rng: &mut Rng, tier: &str, dist: &mut Dist) -> Vec<String> {
     let mut cmds = Vec::new();
     let exe_ok = std::fs::read("/repo/tests/data/wget-x86").map(|b| b.len() > 100000).unwrap_or(false);
     dist.bump(if exe_ok { "fixture.wget-x86.present" } else { "fixture.wget-x86.MISSING" });
+    let repaired = impl_keeps_bytes_on_inner_error();
+    dist.bump(if repaired { "crate.reader-error-repair.present" } else { "crate.reader-error-repair.ABSENT" });
+    let dec_name = |scripts: &[String]| if repaired || !scripts.iter().any(|s| s.contains('!')) { "bcj2_dec" } else { "bcj2_dec_old" };
+    // the witnesses of Filter/Bcj2DefectsProofs.v (C11_bcj2_reader_interrupted_refuted, _partial_word_refuted) first
+    for (size, m, c, r, sizes, data, ds) in [
+        (5, "3488a08eab,!8", ".", "0000000000", "4188,1", "3488a08eab", "."),
+        (6, "e807", "0403,!8,0206", "007ffffc00", ".", "e80102030407", "1"),
+        (5, "3488a08eab,!6", ".", "0000000000", "4188", "3488a08eab", "."),
+    ] {
+        let scripts = [m.to_string(), c.to_string(), ".".to_string(), r.to_string()];
+        cmds.push(format!("{} {} {} {} . {} {} valid {} {}", dec_name(&scripts), size, m, c, r, sizes, data, ds));
+    }
     for i in 0..n {
         let dclass = if i < B2_DATA.len() { B2_DATA[i] } else {
             *rng.pick(&["tiny", "tiny", "random", "dense", "dense", "dense", "exe", "exe", "runs", "big"])
@@ -512,11 +536,12 @@ pub fn gen(rng: &mut Rng, tier: &str, dist: &mut Dist) -> Vec<String> {
         }
         let sizes = gen_sizes(rng, data.len());
         dist.bump(&format!("readsizes.{}", if sizes.is_empty() { "4096" } else if sizes.contains(&0) { "with_zero" } else if sizes.iter().all(|&s| s < 8) { "tiny" } else { "mixed" }));
+        let name = dec_name(&scripts);
         if malformed {
-            cmds.push(format!("bcj2_dec {} {} {} {} {} {} malformed {}", size, scripts[0], scripts[1], scripts[2], scripts[3], ints(&sizes), mkind));
+            cmds.push(format!("{} {} {} {} {} {} {} malformed {}", name, size, scripts[0], scripts[1], scripts[2], scripts[3], ints(&sizes), mkind));
         } else {
             dist.bump("valid");
-            cmds.push(format!("bcj2_dec {} {} {} {} {} {} valid {} {}", size, scripts[0], scripts[1], scripts[2], scripts[3], ints(&sizes), hex(&data), fmt_decisions(&decisions)));
+            cmds.push(format!("{} {} {} {} {} {} {} valid {} {}", name, size, scripts[0], scripts[1], scripts[2], scripts[3], ints(&sizes), hex(&data), fmt_decisions(&decisions)));
         }
     }
     cmds
@@ -542,7 +567,7 @@ pub fn exec(a: &[&str]) -> (String, String) {
             };
             (obs, oracle)
         }
-        "bcj2_dec" => {
+        "bcj2_dec" | "bcj2_dec_old" => {
             let size: u64 = a[1].parse().unwrap();
             let scripts = [parse_script(a[2]), parse_script(a[3]), parse_script(a[4]), parse_script(a[5])];
             let sizes: Vec<usize> = if a[6] == "." { vec![] } else { a[6].split(',').map(|x| x.parse().unwrap()).collect() };
